@@ -82,9 +82,12 @@ def _enc_node(node, depth=0):
     if not isinstance(node, nodes.Element):
         return [enc_str("#text"), "O", "~", "0", ".", enc_str(node.astext()), "0"]
     kids = list(node.children) if depth < 2 else []
+    # clean_astext is only ever applied by the transform to rubrics, captions/titles and terms; a registered
+    # system_message (ids 'system-message-N') has no parent to be removed from
+    txt = node.astext() if isinstance(node, (nodes.system_message, nodes.raw)) else clean_astext(node)
     out = [enc_str(node.tagname), _kind(node), enc_ostr(node["refid"] if "refid" in node else None),
            "1" if "refuri" in node else "0", enc_strs(list(node["names"])) if node["names"] else ".",
-           enc_str(clean_astext(node)), str(len(kids))]
+           enc_str(txt), str(len(kids))]
     out[0] = enc_str(node.tagname)
     for k in kids:
         out += _enc_node(k, depth + 1)
@@ -462,6 +465,59 @@ def corr(ctx):
     if cases:
         ctx.sample({"text": cases[len(FIXED_DOCS)]["text"], "settings": cases[len(FIXED_DOCS)]["settings"]})
     ctx.oracle_tests["O_registries"] = len(idx)
+    corr_sphinx(ctx)
+
+
+def observe_sphinx(case):
+    """the same observation with the transform running inside a Sphinx build (one-document project)"""
+    from lib.impl import SphinxProject
+    install_observer()
+    _OBS.clear()
+    ha = case["settings"].get("myst_heading_anchors", 0)
+    conf = (f"myst_enable_extensions = ['attrs_block', 'attrs_inline', 'deflist', 'fieldlist']\nmyst_heading_anchors = {ha}\n"
+            "myst_footnote_sort = False\n")
+    # the observed document is built last (alphabetical order): 'zdoc'
+    try:
+        SphinxProject({"index.md": "# Index page\n\n```{toctree}\nzdoc\n```\n", "zdoc.md": case["text"]}, conf).build()
+    except Exception as e:
+        return {"exc": type(e).__name__, "obs": None, "before_transform": False}
+    obs = _OBS.get("last")
+    if obs is None or not obs.get("sphinx"):
+        return {"exc": None, "obs": None, "err": _OBS.get("error") or "transform not observed under Sphinx"}
+    return {"exc": None, "obs": obs, "suppressed": False, "wlines": [], "w_other": []}
+
+
+def _observe_sphinx_safe(case):
+    try:
+        return observe_sphinx(case)
+    except Exception as e:  # pragma: no cover
+        return {"exc": "harness:" + repr(e), "obs": None}
+
+
+def corr_sphinx(ctx):
+    """ResolveAnchorIds under the Sphinx front end (pending_xref branch): model with sphinx = true"""
+    from gen.c09_docs import gen_case
+    cases = [{"kind": "doc", "text": t, "settings": dict(s), "links": []} for t, s in FIXED_DOCS[:7]]
+    cases += [gen_case(ctx.rng) for _ in range(ctx.budget(10, 150, 150))]
+    results = pmap(_observe_sphinx_safe, cases, chunksize=2) if len(cases) >= 64 else [_observe_sphinx_safe(c) for c in cases]
+    lines, idx = [], []
+    for i, (c, r) in enumerate(zip(cases, results)):
+        if r.get("obs") is None:
+            ctx.corr_cases += 1
+            ctx.disagree("ResolveAnchorIds not observed under Sphinx", c, r.get("exc") or r.get("err"), None)
+            continue
+        lines.append(model_line(r["obs"], False))
+        idx.append(i)
+    outs = model_run_parallel(PID, lines)
+    for i, o in zip(idx, outs):
+        ctx.corr_cases += 1
+        ctx.count("corr:sphinx")
+        m = parse_model(o)
+        d = compare(results[i], m)
+        if not isinstance(m, str) and any(mm["pending"] for mm in m):
+            ctx.count("corr:sphinx:pending", sum(1 for mm in m if mm["pending"]))
+        if d is not None and len(ctx.disagreements) < 40:
+            ctx.disagree("ResolveAnchorIds.apply (Sphinx): " + d, cases[i], results[i]["obs"]["after"], m)
 
 
 # ------------------------------------------------------------------ direct property oracle
